@@ -834,11 +834,26 @@ def _r7(ctx, funcs):
                  f"snicaddr{tuple(nargs)}")
     # net_if_stats consumes mtu/flags/duplex/speed from the matching natives
     ns = repo.func("_pslinux", "net_if_stats")
-    txt = norm_stmt(ns.node)
-    ok = all(s in txt for s in ("mtu = cext_posix.net_if_mtu(name)",
-                                "flags = cext_posix.net_if_flags(name)",
-                                "duplex, speed = cext.net_if_duplex_speed(name)",
-                                "snicstats(isup, duplex_map[duplex], speed, mtu, output_flags)"))
+    from ..core.astutil import deref
+    ok = False
+    sc = [c for c in calls_in(ns.node) if (dotted(c.func) or "").endswith("snicstats")]
+    if sc and len(sc[0].args) == 5:
+        a = [norm_stmt(deref(ns.node, x)).replace(" ", "") for x in sc[0].args]
+        raw = [dotted(x) for x in sc[0].args]
+        # duplex, speed = cext.net_if_duplex_speed(name)
+        ds = [st for st in ast.walk(ns.node) if isinstance(st, ast.Assign)
+              and isinstance(st.targets[0], ast.Tuple) and len(st.targets[0].elts) == 2
+              and isinstance(st.value, ast.Call)
+              and (dotted(st.value.func) or "").endswith("net_if_duplex_speed")]
+        dn = [dotted(e) for e in ds[0].targets[0].elts] if ds else [None, None]
+        loopv = [dotted(f_.target) for f_ in ast.walk(ns.node) if isinstance(f_, ast.For)]
+        nm = loopv[0] if loopv else "name"
+        flags_call = f"cext_posix.net_if_flags({nm})"
+        ok = ("'running'in" in a[0] and flags_call in a[0]) \
+            and dn[0] is not None and f"[{dn[0]}]" in a[1] \
+            and raw[2] == dn[1] \
+            and a[3] == f"cext_posix.net_if_mtu({nm})" \
+            and a[4] == f"','.join({flags_call})"
     if ok:
         ctx.ok("C17.R7", "net_if_stats", sample="snicstats(isup, duplex, speed, mtu, flags)")
     else:
